@@ -1003,7 +1003,7 @@ class Context:
         fn_constructor = JSCallableObject(function_constructor_fn)
 
         # Function.prototype - add basic methods
-        fn_prototype = JSObject()
+        fn_prototype = JSObject(self._object_prototype)
 
         # These are implemented in VM's _get_property for JSFunction
         # but we still set them here for completeness
